@@ -67,6 +67,11 @@ func isCardNumberValid(cardNumber uint32, formats ...types.CardFormat) bool {
 }
 
 func isWiegand26(card uint32) bool {
+	// facility code (3 digits) + card number (5 digits)
+	if card > 99999999 {
+		return false
+	}
+
 	s := fmt.Sprintf("%08v", card)
 
 	if facilityCode, err := strconv.Atoi(s[:3]); err != nil {
